@@ -417,6 +417,13 @@ class Renderer:
             out += '/*' + self.r.choice(['', 'c', ' k ', '*', '{', ';']) + '*/' + (self.r.choice(['', ' ']) if ws != 'min' else '')
         return out
 
+    def tc(self, tag):
+        """a comment where no white space may stand (inside a qualified name, inside a page selector): CSS drops comments before it parses"""
+        if self.s['comments'] and self.r.random() < 0.12:
+            # (no feature tag: no recorded finding is keyed on these; both defects found with them are repaired, KF-C02-05 / KF-C03-09)
+            return '/*' + self.r.choice(['', 't', '|', ':']) + '*/'
+        return ''
+
     def ows(self):
         """optional white space where a comment would be a block-level item of its own (after '{' or ';', before '}')"""
         if self.s['ws'] == 'wild':
@@ -627,10 +634,10 @@ class Renderer:
         if prefix is None:
             return n
         if prefix == '*':
-            return '*|' + n
+            return '*|' + self.tc('qname') + n
         if prefix == '':
-            return '|' + n
-        return self.prefix(prefix) + '|' + n
+            return '|' + self.tc('qname') + n
+        return self.prefix(prefix) + '|' + self.tc('qname') + n
 
     def part(self, p):
         k = p[0]
@@ -643,7 +650,7 @@ class Renderer:
             w = self.o() if not self.s['comments'] else (self.r.choice(['', ' ']) if self.s['ws'] == 'wild' else '')
             an = self.name(name)
             if prefix is not None:
-                an = ('*' if prefix == '*' else self.prefix(prefix)) + '|' + an if prefix != '' else '|' + an
+                an = ('*' if prefix == '*' else self.prefix(prefix)) + '|' + self.tc('qname') + an if prefix != '' else '|' + self.tc('qname') + an
             out = '[' + w + an + w
             if op:
                 out += op + w + (self.string(val) if quoted else self.name(val)) + w
@@ -745,7 +752,7 @@ class Renderer:
             _, name, pseudo, items, boxes = st
             out = self.kw('@page')
             if name or pseudo:
-                out += self.req() + (self.name(name) if name else '') + (':' + self.kw(pseudo) if pseudo else '')
+                out += self.req() + (self.name(name) if name else '') + ((self.tc('page-selector') if name else '') + ':' + self.kw(pseudo) if pseudo else '')
             body = self.items(items)
             if body and boxes and not body.rstrip().endswith(';'):
                 body += ';'
